@@ -108,6 +108,10 @@ def solve_milp(
     if root_result.status == LPStatus.UNBOUNDED:
         return Result(None, float("-inf") if minimize else float("inf"), 0, total_iters, Status.UNBOUNDED)
 
+    if root_result.status != LPStatus.OPTIMAL:
+        # Root LP hit the iteration limit: nothing is known about the model
+        return Result(None, float("inf") if minimize else float("-inf"), 0, total_iters, Status.MAX_ITER)
+
     best_solution, best_obj = None, float("inf") if minimize else float("-inf")
     sign = 1 if minimize else -1
     all_solutions: list[tuple[float, ...]] = []
@@ -162,6 +166,7 @@ def solve_milp(
     heappush(tree, (root_bound, counter, Node(root_bound, tuple(lower), tuple(upper), 0)))
     counter += 1
     nodes_explored = 0
+    undecided = False  # a node LP hit the iteration limit: its sub-tree was neither explored nor refuted
 
     while tree and nodes_explored < max_nodes:
         node_bound, _, node = heappop(tree)
@@ -173,6 +178,10 @@ def solve_milp(
         result = _solve_node(c, A, b, node.lower, node.upper, minimize, eps, max_iter)
         total_iters += result.iterations
         nodes_explored += 1
+
+        if result.status == LPStatus.MAX_ITER:
+            undecided = True
+            continue
 
         if result.status != LPStatus.OPTIMAL:
             continue
@@ -203,7 +212,7 @@ def solve_milp(
             if sign * sol_obj < sign * best_obj:
                 best_solution, best_obj = sol, sol_obj
                 gap = _compute_gap(best_obj, node_bound / sign if node_bound != 0 else 0)
-                if gap < gap_tol and solution_limit == 1:
+                if gap < gap_tol and solution_limit == 1 and not undecided:
                     return Result(best_solution, best_obj, nodes_explored, total_iters)
 
             continue
@@ -224,9 +233,10 @@ def solve_milp(
         counter += 1
 
     if best_solution is None:
-        return Result(None, float("inf") if minimize else float("-inf"), nodes_explored, total_iters, Status.INFEASIBLE)
+        status = Status.MAX_ITER if undecided else Status.INFEASIBLE
+        return Result(None, float("inf") if minimize else float("-inf"), nodes_explored, total_iters, status)
 
-    status = Status.OPTIMAL if not tree else Status.FEASIBLE
+    status = Status.OPTIMAL if not tree and not undecided else Status.FEASIBLE
     if solution_limit > 1 and all_solutions:
         return Result(best_solution, best_obj, nodes_explored, total_iters, status, solutions=tuple(all_solutions))
     return Result(best_solution, best_obj, nodes_explored, total_iters, status)
